@@ -66,7 +66,7 @@ class T:
     def __str__(self):
         if self.kind == 'Tuple':
             return '(' + ', '.join(str(c) for c in self.comps) + ')'
-        if self.kind in ('First', 'Fresh'):
+        if self.kind in ('First', 'Fresh', 'Items'):
             return self.kind
         return f'{self.kind}[{wname(self.o)}]'
 
@@ -118,8 +118,33 @@ class OrderAnalysis:
             for t in (l, r):
                 if t is not None and t.kind == 'Fresh':
                     return t
+            for t in (l, r):
+                if t is not None and t.kind == 'Pos' and isinstance(e.op, (ast.Add, ast.Sub)):
+                    return t          # an offset of a position is a position in the same coordinates
+            return None
+        if isinstance(e, (ast.ListComp, ast.GeneratorExp)) and len(e.generators) == 1:
+            g = e.generators[0]
+            sub = dict(env)
+            it = g.iter
+            if isinstance(it, ast.Call) and _leaf(it.func) == 'zip' and isinstance(g.target, (ast.Tuple, ast.List)) \
+                    and len(g.target.elts) == len(it.args):
+                for t_, a_ in zip(g.target.elts, it.args):
+                    self.bind(t_, self._elem(self.ty(a_, env)), sub)
+            else:
+                self.bind(g.target, self._elem(self.ty(it, env)), sub)
+            t = self.ty(e.elt, sub)
+            return t if t is not None and t.kind == 'Pos' else None
+        if isinstance(e, ast.List) and e.elts:
+            ts = [self.ty(x, env) for x in e.elts]
+            if all(t is not None and t.kind == 'Pos' for t in ts) and len({t.o for t in ts}) == 1:
+                return ts[0]
             return None
         return None
+
+    @staticmethod
+    def _elem(t: Optional[T]) -> Optional[T]:
+        """type of one element of a container of positions"""
+        return t if t is not None and t.kind == 'Pos' else None
 
     def ty_call(self, c: ast.Call, env) -> Optional[T]:
         nm = _leaf(c.func)
@@ -140,7 +165,28 @@ class OrderAnalysis:
                 return T('Perm', FIRST)
             if t is not None and t.kind == 'Perm':
                 return T('Perm', winv(t.o))
+            if t is None and x is not None:
+                # the sorting permutation of some other array: a symbol of its own (S<line>)
+                return T('SPerm', ((f'S{getattr(c, "lineno", 0)}', 1),))
             return None
+        if nm == 'searchsorted':
+            a = c.func.value if isinstance(c.func, ast.Attribute) and not (isinstance(c.func.value, ast.Name) and c.func.value.id in ('np', 'numpy')) \
+                else (c.args[0] if c.args else None)
+            ta = self.ty(a, env)
+            if ta is not None and ta.kind == 'Srt':
+                return T('Pos', ta.o)         # positions in the coordinates of the sorted copy
+            return None
+        if nm == 'arange' and len(c.args) >= 2:
+            ts = [self.ty(a, env) for a in c.args[:2]]
+            for t in ts:
+                if t is not None and t.kind == 'Pos':
+                    return t
+            return None
+        if nm in ('concatenate', 'hstack', 'ravel', 'flatten', 'unique', 'sort', 'sorted') and (c.args or isinstance(c.func, ast.Attribute)):
+            x0 = c.args[0] if c.args else c.func.value
+            t0 = self.ty(x0, env)
+            if t0 is not None and t0.kind == 'Pos':
+                return t0
         if nm == 'outer' and isinstance(c.func, ast.Attribute) and isinstance(c.func.value, ast.Attribute) \
                 and c.func.value.attr == 'equal' and len(c.args) == 2:
             # np.equal.outer(np.arange(n), inv): row i is the membership mask of group i
@@ -150,14 +196,23 @@ class OrderAnalysis:
         if nm in FRESH_FUNCS:
             return T('Fresh')
         if nm == 'arange' and len(c.args) == 1:
+            if any(isinstance(n, ast.Attribute) and n.attr in ('n_rdm', 'n_cond', 'n_obs', 'n_channel', 'n_time') for n in ast.walk(c.args[0])):
+                return T('Items')          # one position per item (RDM, condition, observation ...) of a container, in its raw order
             return T('Perm', SORTED)       # the identity permutation
         if nm in ('array', 'asarray', 'copy', 'list', 'tuple') and (c.args or isinstance(c.func, ast.Attribute)):
             x = c.args[0] if c.args else c.func.value
             t = self.ty(x, env)
-            return t if t is not None and t.kind in ('Uniq', 'Inv', 'Rows', 'Perm') else None
+            return t if t is not None and t.kind in ('Uniq', 'Inv', 'Rows', 'Perm', 'Pos', 'SPerm', 'Srt') else None
         if nm == 'astype' and isinstance(c.func, ast.Attribute):
             t = self.ty(c.func.value, env)
-            return t if t is not None and t.kind in ('Inv', 'Perm') else None
+            return t if t is not None and t.kind in ('Inv', 'Perm', 'Pos', 'SPerm') else None
+        if nm in ('extract_dict', 'subset_descriptor') and len(c.args) >= 2:
+            tp = self.ty(c.args[1], env)
+            if tp is not None and tp.kind == 'Pos' and id(c) not in self._seen_f:
+                self._seen_f.add(id(c))
+                self.findings.append(('POS', c, f'`{ast.unparse(c)[:70]}`: descriptors are selected by positions in their own (raw) order',
+                                      f'`{ast.unparse(c.args[1])[:40]}` holds positions in a SORTED copy ({wname(tp.o)}); applied to the '
+                                      f'descriptors in their original order they select other entries'))
         q = self.resolve(c)
         if q is not None and q in self.summ:
             return self.summ[q]
@@ -178,7 +233,24 @@ class OrderAnalysis:
                 and id(e) not in self._seen_g:
             self._seen_g.add(id(e))
             self.perm_gathers.append((b.o, e))
+        # positions found in a sorted copy index only that copy (or the sorting permutation, which maps them back)
+        items = list(idx.elts) if isinstance(idx, ast.Tuple) else [idx]
+        for it in items:
+            ti = self.ty(it, env) if isinstance(it, (ast.Name, ast.Subscript, ast.Call, ast.BinOp)) and it is not e else None
+            if ti is not None and ti.kind == 'Pos' and id(e) not in self._seen_f:
+                ok_base = a is not None and a.kind in ('Srt', 'SPerm') and a.o == ti.o
+                self._seen_f.add(id(e))
+                con = f'`{ast.unparse(e)[:70]}`: positions index the array whose order they refer to'
+                if ok_base:
+                    self.checked.append(('POS', e, con))
+                    return None if a.kind == 'SPerm' else T('Srt', a.o)
+                self.findings.append(('POS', e, con, f'`{ast.unparse(it)[:40]}` holds positions in a SORTED copy ({wname(ti.o)}), '
+                                      f'`{ast.unparse(e.value)[:40]}` is in its original order: without mapping the positions back through '
+                                      f'the sorting permutation other entries are selected (unless the data happen to be sorted)'))
+                return None
         if a is None:
+            if b is not None and b.kind == 'SPerm' and not isinstance(idx, ast.Tuple):
+                return T('Srt', b.o)         # x[order]: the sorted copy
             return None
         if a.kind == 'Tuple' and isinstance(idx, ast.Constant) and isinstance(idx.value, int) and idx.value < len(a.comps):
             return a.comps[idx.value]
@@ -273,6 +345,12 @@ class OrderAnalysis:
             for k in set(e1) & set(e2):
                 if e1[k] == e2[k]:
                     env[k] = e1[k]
+            # positions in a sorted copy are a MAY property: a value that has this type on one path keeps it (using it on the raw
+            # array is wrong on that path)
+            for ee in (e1, e2):
+                for k, v in ee.items():
+                    if v.kind == 'Pos' and k not in env:
+                        env[k] = v
         elif isinstance(s, (ast.For, ast.While)):
             if isinstance(s, ast.For):
                 self.scan(s.iter, env)
@@ -371,6 +449,20 @@ class OrderAnalysis:
             te = self.ty(lp.iter.args[0], env)
             if te is not None and te.kind == 'Uniq':
                 for n in ast.walk(lp):
+                    # np.delete(<item positions>, i) / <item positions>[i]: the counter of the distinct values addresses an ITEM
+                    cand = None
+                    if isinstance(n, ast.Call) and _leaf(n.func) == 'delete' and len(n.args) >= 2 and is_i(n.args[1]):
+                        cand = n.args[0]
+                    elif isinstance(n, ast.Subscript) and isinstance(n.ctx, ast.Load) and is_i(n.slice):
+                        cand = n.value
+                    tc = self.ty(cand, env) if cand is not None else None
+                    if tc is not None and tc.kind == 'Items' and id(n) not in self._seen_f:
+                        self._seen_f.add(id(n))
+                        self.findings.append(('RAWIDX', n, 'the group counter is not used as a position among the items',
+                                              f'`{ast.unparse(n)[:60]}` addresses item positions with the counter of '
+                                              f'`{ast.unparse(lp.iter)[:50]}` (the number of a distinct value in {wname(te.o)}): the item at that '
+                                              f'position belongs to that group only if every group has exactly one item and the items are '
+                                              f'stored in {wname(te.o)}'))
                     if isinstance(n, ast.Subscript) and isinstance(n.ctx, ast.Load) and is_i(n.slice) and self.ty(n.value, env) is None:
                         base = n.value
                         raw = isinstance(base, ast.Subscript) and isinstance(base.value, ast.Attribute) and base.value.attr.endswith('descriptors')
